@@ -184,6 +184,10 @@ func (vc *VC) evalBuiltin(st *State, name string, c *ast.CallExpr) []Val {
 		vc.assign(st, c.Args[0], vc.mapDelete(m, k))
 		return nil
 	case "copy":
+		if intElems(vc.typeOf(c.Args[0])) {
+			vc.bytesCtx++
+			defer func() { vc.bytesCtx-- }()
+		}
 		return one(vc.evalCopy(st, c))
 	case "clear":
 		v := vc.eval(st, c.Args[0])
@@ -256,6 +260,10 @@ func (vc *VC) arrayBlit(st *State, es, base, dOff, src, sOff, n string) string {
 }
 
 func (vc *VC) evalAppend(st *State, c *ast.CallExpr) Val {
+	if intElems(vc.typeOf(c.Args[0])) {
+		vc.bytesCtx++
+		defer func() { vc.bytesCtx-- }()
+	}
 	base := vc.eval(st, c.Args[0])
 	t := base.Ty
 	st2, ok := t.Underlying().(*types.Slice)
